@@ -137,3 +137,7 @@ pub fn run(tier: Tier, seed: u64, ev: &mut Evidence) -> Vec<Violation> {
 pub fn replay(case: &Value) -> Result<Option<Violation>, String> {
     crate::props::c01::replay_as("C05", case)
 }
+
+pub fn rerun(_tier: Tier, seed: u64, run: u64) -> Option<Violation> {
+    one_run(seed, run).violation
+}
